@@ -662,7 +662,8 @@ class World:
         chunk = max(self.chunk, len(data) // 24 + 1)
         pieces = [data[i:i + chunk] for i in range(0, len(data), chunk)] or [b""]
         failed_quietly = False
-        if self.knobs.get("multipart") and len(pieces) > 1:
+        sparse = bool(self.knobs.get("sparse_writer")) and res.startswith("sparse")
+        if self.knobs.get("multipart") and len(pieces) > 1 and not sparse:
             return self._sim_download_multipart(uri, filepath, NotFound, pieces, kind, fault)
         with open(filepath, "wb") as f:
             for i, piece in enumerate(pieces):
@@ -684,6 +685,12 @@ class World:
                             raise self._err_type()("injected: connection lost part-way through %s" % uri)
                         raise KeyboardInterrupt()
                     raise self._err_type()("injected: connection lost part-way through %s" % uri)
+                if sparse and 0 < i < len(pieces) - 1 and not piece.strip(b"\0"):
+                    # a downloader that does not write runs of zero bytes (netCDF/HDF5 libraries, `cp --sparse`,
+                    # rsync -S): it seeks over them and the file system leaves a hole
+                    f.seek(len(piece), 1)
+                    self.stats["probes"]["sparse_piece_skipped"] = self.stats["probes"].get("sparse_piece_skipped", 0) + 1
+                    continue
                 f.write(piece)
                 self.sched("net.chunk", uri, len(piece))
         if failed_quietly:
